@@ -15,6 +15,7 @@
 #include <fcppt/signal/unregister/function.hpp>
 
 #include <algorithm>
+#include <functional>
 #include <map>
 #include <memory>
 #include <optional>
@@ -324,6 +325,8 @@ struct call_log_entry
 };
 std::vector<call_log_entry> g_calls;
 std::map<int, int> g_unregistered;
+// re-entrant use of the signal from inside an unregister callback: set by the runner while a connection is dropped
+std::function<void(int)> g_in_unregister;
 
 int callback_value(int conn, int arg) { return conn * 7 + arg; }
 int combine(int a, int b) // not commutative, not associative; unsigned arithmetic, no overflow
@@ -376,7 +379,11 @@ struct signal_runner
     };
     if constexpr (Unregister)
       conns[static_cast<std::size_t>(ci)].emplace(
-          s.connect(fn{cb}, fcppt::signal::unregister::function{[id] { ++g_unregistered[id]; }}));
+          s.connect(fn{cb}, fcppt::signal::unregister::function{[id] {
+            ++g_unregistered[id];
+            if (g_in_unregister)
+              g_in_unregister(id);
+          }}));
     else
       conns[static_cast<std::size_t>(ci)].emplace(s.connect(fn{cb}));
     ms[static_cast<std::size_t>(si)].push_back(id);
@@ -394,7 +401,17 @@ struct signal_runner
     owner[id] = -1;
     if (Unregister && g_unregistered[id] != 0)
       fail("unregister/ran-before-death", "connection " + std::to_string(id));
+    if (Unregister && o >= 0 && sigs[static_cast<std::size_t>(o)].sig && sigs[static_cast<std::size_t>(o)].usable)
+      g_in_unregister = [this, o](int) {
+        // the dying connection is no longer alive: a call from inside its unregister callback must not invoke it,
+        // and the signal's emptiness must already exclude it (the model was updated before the connection is reset)
+        VF_COUNT("signal/reentrant-calls-from-unregister");
+        std::vector<call_log_entry> saved = g_calls;
+        call(o, 5);
+        g_calls = saved;
+      };
     conns[static_cast<std::size_t>(ci)].reset();
+    g_in_unregister = nullptr;
     dead.push_back(id);
     if (Unregister && g_unregistered[id] != 1)
       fail("unregister/count", "unregister callback of connection " + std::to_string(id) + " ran " +
@@ -634,7 +651,7 @@ void body()
         "signal/op/connect", "signal/op/drop-connected", "signal/op/drop-orphaned", "signal/op/call-three-or-more",
         "signal/op/signal-move-ctor-with-connections", "signal/op/signal-move-assign-nonempty-to-nonempty",
         "signal/op/signal-move-assign-empty-to-nonempty", "signal/op/destroy-signal-before-connections",
-        "signal/callbacks-invoked"})
+        "signal/callbacks-invoked", "signal/reentrant-calls-from-unregister"})
     vf::require_bucket(b);
   std::uint64_t total = vf::tier<std::uint64_t>(30000, 1000000);
   drive<list_runner>("intrusive-list", total);
